@@ -190,3 +190,182 @@ def timeline(seq, t):
         else:
             break
     return v
+
+
+# ---------------------------------------------------------------- independent deciders (no Coq model involved)
+
+FSM = {("Unknown", "x"): "Running", ("Dead", "x"): "Running", ("Running", "c"): "Cooling", ("Running", "p"): "Paused",
+       ("Cooling", "p"): "Paused", ("Paused", "w"): "Warming", ("Paused", "r"): "Running", ("Warming", "r"): "Running",
+       ("Running", "e"): "Dead", ("Cooling", "e"): "Dead"}
+CODE = {"Unknown": 0, "Running": 1, "Paused": 2, "Dead": 3, "Cooling": 4, "Warming": 5}
+
+
+def py_spec(s):
+    """The documented thread machine + CPU occupancy, replayed on the OH*/OA* events of a scenario.
+    Returns (accepted, history) ; history = list of (clock, {thread pos: (state, cpu gindex or None)}) after each accepted event."""
+    import struct as _st
+    g = s.thread_gindex()
+    cpus = s.cpu_table()
+    lo = s.loom_order()
+
+    def find_cpu(loompos, idx):
+        for gi, (li, ix, virt) in enumerate(cpus):
+            if li == loompos and ix == idx:
+                return gi
+        return None
+
+    st = {p: ("Unknown", None) for p in range(len(s.threads))}
+    hist = []
+
+    def oversub(stt):
+        for gi, (li, ix, virt) in enumerate(cpus):
+            if virt:
+                continue
+            if sum(1 for p, (a, c) in stt.items() if a == "Running" and c == gi) > 1:
+                return True
+        return False
+
+    for (p, clk, mcv, pl) in sorted(s.events, key=lambda e: e[1]):
+        loompos = lo.index(s.threads[p]["loom"])
+        cur, cpu = st[p]
+        new = dict(st)
+        if mcv[:2] == "OH" and mcv[2] in "xeprcw":
+            nxt = FSM.get((cur, mcv[2]))
+            if nxt is None:
+                return False, hist
+            if mcv[2] == "x":
+                if len(pl) < 4:
+                    return False, hist
+                c = find_cpu(loompos, _st.unpack("<i", pl[:4])[0])
+                if c is None:
+                    return False, hist
+                new[p] = (nxt, c)
+            elif mcv[2] == "e":
+                new[p] = (nxt, None)
+            else:
+                new[p] = (nxt, cpu)
+        elif mcv == "OAs":
+            if cpu is None or cur not in ("Running", "Cooling", "Warming") or len(pl) != 4:
+                return False, hist
+            c = find_cpu(loompos, _st.unpack("<i", pl)[0])
+            if c is None:
+                return False, hist
+            new[p] = (cur, c)
+        elif mcv == "OAr":
+            if len(pl) != 8:
+                return False, hist
+            idx, tid = _st.unpack("<ii", pl)
+            cands = [q for q in range(len(s.threads)) if s.threads[q]["loom"] == s.threads[p]["loom"] and s.threads[q]["tid"] == tid]
+            same = [q for q in cands if s.threads[q]["pid"] == s.threads[p]["pid"]]
+            q = (same or cands or [None])[0]
+            if q is None:
+                return False, hist
+            rs, rc = st[q]
+            c = find_cpu(loompos, idx)
+            if rs in ("Dead", "Unknown") or rc is None or c is None:
+                return False, hist
+            if c == rc:
+                return None, hist          # the documentation does not say; the emulator refuses
+            new[q] = (rs, c)
+        else:
+            continue
+        if oversub(new):
+            return False, hist
+        st = new
+        hist.append((clk, dict(st)))
+    if any(a != "Dead" for (a, c) in st.values()):
+        return False, hist
+    return True, hist
+
+
+def decide_thread_rows(s, real_rows, hist):
+    """C04 timeline on the REAL output: rows 4/2/6 of thread.prv must show the machine's state, the TID while
+    active, the bound CPU, at every event instant. Returns None or a description."""
+    if not s.events:
+        return None
+    g = s.thread_gindex()
+    t0 = min(e[1] for e in s.events)
+    for (clk, stt) in hist:
+        t = clk - t0
+        for p, (a, c) in stt.items():
+            row = g[p] + 1
+            exp = {4: CODE[a], 2: s.threads[p]["tid"] if a in ("Running", "Cooling", "Warming") else 0, 6: (c + 1) if c is not None else 0}
+            for ty, want in exp.items():
+                got = timeline(real_rows.get((0, row, ty), []), t)
+                if got != want:
+                    return "thread row %d type %d shows %d at t=%d, the state machine says %d (%s)" % (row, ty, got, t, want, a)
+    return None
+
+
+def decide_cpu_rows(s, real_rows, hist):
+    """C05 on the REAL output: cpu.prv types 3/2/1 = number of running threads bound to the CPU and TID/PID of the unique one."""
+    if not s.events:
+        return None
+    t0 = min(e[1] for e in s.events)
+    ncpu = len(s.cpu_table())
+    touched = set()
+    for (clk, stt) in hist:
+        t = clk - t0
+        for c in range(ncpu):
+            run = [p for p, (a, cc) in stt.items() if a == "Running" and cc == c]
+            row = c + 1
+            got3 = timeline(real_rows.get((1, row, 3), []), t)
+            if got3 != len(run):
+                return "cpu row %d shows %d running threads at t=%d, %d are bound and running" % (row, got3, t, len(run))
+            want2 = s.threads[run[0]]["tid"] if len(run) == 1 else 0
+            want1 = s.threads[run[0]]["pid"] if len(run) == 1 else 0
+            for ty, want in ((2, want2), (1, want1)):
+                got = timeline(real_rows.get((1, row, ty), []), t)
+                if got != want:
+                    return "cpu row %d type %d shows %d at t=%d, expected %d" % (row, ty, got, t, want)
+        if not s.cpu_table()[0][2]:
+            pass
+    return None
+
+
+def decide_views(s, real_rows, hist, tables):
+    """C06 on the REAL output, using only the thread/affinity machine and cross-consistency of the two PRV files:
+    (a) a thread row of a tracked type is empty whenever the thread's state does not satisfy the tracking mode;
+    (b) a CPU row shows the thread row's value of its unique running thread, and no thread's value otherwise
+        (0 or the idle default)."""
+    if not s.events:
+        return None
+    g = s.thread_gindex()
+    t0 = min(e[1] for e in s.events)
+    specs = [c for c in tables["chans"] if c["side"] == "th" and _model_name(tables, c["model"]) in s.enabled]
+    ncpu = len(s.cpu_table())
+    times = sorted(set(e[1] - t0 for e in s.events))
+    states = {}
+    hi = 0
+    cur = {p: ("Unknown", None) for p in range(len(s.threads))}
+    for t in times:
+        while hi < len(hist) and hist[hi][0] - t0 <= t:
+            cur = hist[hi][1]
+            hi += 1
+        for sp in specs:
+            ty = sp["type"]
+            for p, (a, c) in cur.items():
+                ok = sp["track"] == 0 or (sp["track"] == 1 and a == "Running") or (sp["track"] == 2 and a in ("Running", "Cooling", "Warming"))
+                got = timeline(real_rows.get((0, g[p] + 1, ty), []), t)
+                if not ok and got != 0:
+                    return "thread row %d type %d shows %d at t=%d although the thread is %s (tracking mode %d)" % (g[p] + 1, ty, got, t, a, sp["track"])
+            for c in range(ncpu):
+                run = [p for p, (a, cc) in cur.items() if a == "Running" and cc == c]
+                got = timeline(real_rows.get((1, c + 1, ty), []), t)
+                if len(run) == 1:
+                    want = timeline(real_rows.get((0, g[run[0]] + 1, ty), []), t)
+                    if got != want:
+                        return "cpu row %d type %d shows %d at t=%d, its running thread (row %d) shows %d" % (c + 1, ty, got, t, g[run[0]] + 1, want)
+                else:
+                    rest = [c["value"] for c in tables.get("consts", []) if c["model"] == sp["model"] and c["name"] == "ST_RESTING"]
+                    allowed = {0} | (set(rest) if sp["name"] == "idle" else set())
+                    if got not in allowed:
+                        return "cpu row %d type %d shows %d at t=%d with %d running threads" % (c + 1, ty, got, t, len(run))
+    return None
+
+
+def _model_name(tables, d):
+    for m in tables["models"]:
+        if m["dir"] == d:
+            return m["name"]
+    return d
